@@ -729,8 +729,23 @@ func runSpecOnce(kind string, state uint64, res *hlib.Result) (d string, trace [
 			d, trace = specFaultAll(kind, r, state == 0, res)
 		case "c13retry":
 			d, trace = specRetryFixed(res)
+		case "c03retry", "c03commit":
+			// the clause C03 shares with C13: a root committed after a rejected commit (and further
+			// writes) reads back, through a fresh tree, with exactly the contents written
+			if kind == "c03retry" {
+				d, trace = specRetryFixed(res)
+			} else {
+				d, trace = specC13(r, res)
+			}
+			if strings.HasPrefix(d, "spec-c13-committed-root-") {
+				d = "spec-c03-" + strings.TrimPrefix(d, "spec-c13-")
+			} else {
+				d = "" // the write-log clauses are C13's
+			}
 		case "c13twohop":
 			d, trace = specTwoHop(r, res)
+		case "c13forktypes":
+			d, trace = specForkTypes(r, res)
 		case "c03nilkey":
 			d, trace = specNilKey(res)
 		case "c03nilval":
@@ -813,6 +828,7 @@ func runSpec(rng *hlib.Rng, n int, focus string, res *hlib.Result) {
 		runSpecCase("c13retry", 0, res)
 	}
 	if focus == "c03" && n > 0 {
+		runSpecCase("c03retry", 0, res)
 		runSpecCase("c03nilkey", 0, res)
 		runSpecCase("c03nilval", 0, res)
 		for _, f := range res.Failures {
@@ -827,6 +843,13 @@ func runSpec(rng *hlib.Rng, n int, focus string, res *hlib.Result) {
 			// chains of roots inside one version (hashed backend): the log served for (start, end) over
 			// two hops must lead from the start root to the end root
 			kind = "c13twohop"
+		}
+		if focus == "c13" && i%5 == 2 {
+			// competing state roots finalized together with an I/O root of the same version
+			kind = "c13forktypes"
+		}
+		if focus == "c03" && i%7 == 5 {
+			kind = "c03commit"
 		}
 		if (focus == "c02" || focus == "c03") && i%3 == 2 {
 			// fault histories: a failed operation on a lazily loaded tree has no effect (fault.go)
@@ -1006,4 +1029,154 @@ func specTwoHop(r *hlib.Rng, res *hlib.Result) (string, []string) {
 		}
 	}
 	return "", nil
+}
+
+// specForkTypes (kind c13forktypes): one version with TWO root types. A state and an I/O root of
+// the previous version are finalized; at the next version two competing state roots are committed
+// from the same parent (so they get different batch sequence numbers on the path-keyed backend) and
+// one I/O root; the state candidate chosen by the seed and the I/O root are finalized together.
+// GetWriteLog(previous root, finalized root) must be served for both types and, applied to the
+// previous contents, give exactly the finalized contents — never a discarded candidate's.
+func specForkTypes(r *hlib.Rng, res *hlib.Result) (string, []string) {
+	g := &keygen{r: r}
+	// the path-keyed backend only: on the hashed backend competing candidates of one version run into
+	// the known findings D3/D7 (covered, with their signatures, by the fork histories)
+	backend := "pathbadgermem"
+	im := newImpl(backend, 0, 0)
+	defer im.close()
+	trace := []string{"new " + backend}
+	res.Count("forktypes:" + backend)
+	var pool [][]byte
+	for i := 0; i < 4+r.Intn(5); i++ {
+		pool = append(pool, g.key())
+	}
+	write := func(t mkvs.Tree, cur contents, tag string) error {
+		for i := 0; i < 1+r.Intn(5); i++ {
+			k := pool[r.Intn(len(pool))]
+			if _, ok := cur[string(k)]; ok && r.Chance(1, 4) {
+				trace = append(trace, tag+" remove "+hx(k))
+				delete(cur, string(k))
+				if err := t.Remove(ctx, k); err != nil {
+					return err
+				}
+				continue
+			}
+			v := genValue(r)
+			trace = append(trace, fmt.Sprintf("%s insert %s %s", tag, hx(k), hx(v)))
+			cur[string(k)] = v
+			if err := t.Insert(ctx, k, v); err != nil {
+				return err
+			}
+		}
+		return nil
+	}
+	commit := func(parent *node.Root, typ node.RootType, version uint64, base contents, tag string) (node.Root, contents, error) {
+		var t mkvs.Tree
+		if parent == nil {
+			t = mkvs.New(nil, im.ndb, typ)
+		} else {
+			t = mkvs.NewWithRoot(nil, im.ndb, *parent)
+		}
+		defer t.Close()
+		cur := base.clone()
+		if err := write(t, cur, tag); err != nil {
+			return node.Root{}, nil, err
+		}
+		_, h, err := t.Commit(ctx, testNs, version)
+		if err != nil {
+			return node.Root{}, nil, err
+		}
+		trace = append(trace, fmt.Sprintf("%s commit v%d", tag, version))
+		return node.Root{Namespace: testNs, Version: version, Type: typ, Hash: h}, cur, nil
+	}
+	fail := func(sig, f string, a ...any) (string, []string) {
+		return sig + ": " + backend + ": " + fmt.Sprintf(f, a...), trace
+	}
+	s0, cs0, err := commit(nil, node.RootTypeState, 1, contents{}, "state")
+	if err != nil {
+		return fail("spec-c13-error", "%v", err)
+	}
+	i0, ci0, err := commit(nil, node.RootTypeIO, 1, contents{}, "io")
+	if err != nil {
+		return fail("spec-c13-error", "%v", err)
+	}
+	if err = im.ndb.Finalize([]node.Root{s0, i0}); err != nil {
+		return fail("spec-c13-error", "finalize 1: %v", err)
+	}
+	// order of the three commits of version 2 is seed-chosen
+	type cand struct {
+		root node.Root
+		cont contents
+	}
+	var states []cand
+	var io cand
+	order := [][]string{{"a", "b", "io"}, {"a", "io", "b"}, {"io", "a", "b"}}[r.Intn(3)]
+	for _, o := range order {
+		if o == "io" {
+			// I/O roots are built from scratch in every version (they cannot have child roots)
+			rt, c, err := commit(nil, node.RootTypeIO, 2, contents{}, "io")
+			if err != nil {
+				return fail("spec-c13-error", "%v", err)
+			}
+			io = cand{rt, c}
+			continue
+		}
+		rt, c, err := commit(&s0, node.RootTypeState, 2, cs0, "state-"+o)
+		if err != nil {
+			return fail("spec-c13-error", "%v", err)
+		}
+		states = append(states, cand{rt, c})
+	}
+	if states[0].root.Hash.Equal(&states[1].root.Hash) || states[0].root.Hash.Equal(&s0.Hash) || states[1].root.Hash.Equal(&s0.Hash) || io.root.Hash.IsEmpty() {
+		res.Count("forktypes:degenerate")
+		return "", trace
+	}
+	pick := r.Intn(2)
+	trace = append(trace, fmt.Sprintf("finalize v2 state candidate %d + io", pick))
+	if err = im.ndb.Finalize([]node.Root{states[pick].root, io.root}); err != nil {
+		return fail("spec-c13-error", "finalize 2: %v", err)
+	}
+	check := func(from, to node.Root, base, want contents, what string) (string, []string) {
+		it, err := im.ndb.GetWriteLog(ctx, from, to)
+		if err != nil {
+			return fail("spec-c13-finalized-write-log-not-served", "%s: %v", what, err)
+		}
+		wl, err := drainLog(it)
+		if err != nil {
+			return fail("spec-c13-finalized-write-log-not-served", "%s: %v", what, err)
+		}
+		got := base.clone()
+		for _, e := range wl {
+			if e.Value == nil {
+				delete(got, string(e.Key))
+			} else {
+				got[string(e.Key)] = e.Value
+			}
+		}
+		if got.String() != want.String() {
+			return fail("spec-c13-write-log-of-finalized-root-leads-elsewhere", "%s: the served log applied to the previous contents gives %s, the finalized root holds %s", what, got.String(), want.String())
+		}
+		// and the finalized root itself reads back
+		t := mkvs.NewWithRoot(nil, im.ndb, to)
+		defer t.Close()
+		for k, v := range want {
+			gv, err := t.Get(ctx, []byte(k))
+			if err != nil || !bytes.Equal(gv, v) {
+				return fail("spec-c13-committed-root-unreadable", "%s: key %s reads %s (%v)", what, hx([]byte(k)), hx(gv), err)
+			}
+		}
+		return "", nil
+	}
+	if d, tr := check(s0, states[pick].root, cs0, states[pick].cont, "state root"); d != "" {
+		return d, tr
+	}
+	var emptyHash hash.Hash
+	emptyHash.Empty()
+	emptyIO := node.Root{Namespace: testNs, Version: 2, Type: node.RootTypeIO, Hash: emptyHash}
+	if d, tr := check(emptyIO, io.root, contents{}, io.cont, "io root"); d != "" {
+		return d, tr
+	}
+	_ = ci0
+	res.Count("forktypes:checked")
+	return "", trace
 }
